@@ -140,8 +140,11 @@ def load_fns(torch, res, notes):
 
 
 # ----------------------------------------------------------------------------- grids
-def ch_values(quick):
-    ints = list(range(0, 131)) + [255, 256, 257, 511, 512, 513]
+BOUNDARY_CH = [0, 1, 2, 3, 4, 5, 7, 8, 9, 15, 16, 17, 31, 32, 33, 47, 48, 49, 63, 64, 65, 95, 96, 97, 127, 128, 129, 130]
+
+
+def ch_values(quick, dense=True):
+    ints = (list(range(0, 131)) if dense else BOUNDARY_CH) + [255, 256, 257, 511, 512, 513]
     if quick:
         fr = [Fraction(c) + f for c in (0, 1, 2, 3, 4, 7, 8, 15, 16, 17, 31, 32, 33, 63, 64, 65, 127, 128, 129)
               for f in (Fraction(1, 4), Fraction(1, 2), Fraction(3, 4))]
@@ -188,11 +191,12 @@ def bases_for(F, quick):
 
 def sweeps_for(F, quick):
     """yields (base index, swept variable, [env, ...] in increasing order of the variable)"""
-    chs = ch_values(quick)
     ks = [Fraction(x) for x in (1, 3, 5, 7)]
     os_ = [Fraction(x) for x in range(1, 34)]
     bits = [Fraction(x) for x in (0, 1, 2, 3, 4, 6, 8, 16)]
     for bi, b in enumerate(bases_for(F, quick)):
+        chs = ch_values(quick, dense=(bi == 0 or not quick))   # quick: every channel count through the first base point, tile boundaries +-1 through the others
+
         def sw(var, vals, keys):
             envs = []
             for v in vals:
@@ -420,7 +424,7 @@ def run(ctx):
     ctx.assumptions += ['translator/cost2coq.py (fail-closed whitelist); its output is compared with the Python functions on the whole grid on every run',
                         'autograd pass-through of the straight-through helpers is observed (x.grad == upstream gradient), not proved',
                         'float64 evaluation of the implementation: integer/dyadic results compared with =, MPIC / DIANA-analog within 2^-40, MPIC energy (float32 constant) within 2^-20']
-    ctx.rule = ('every registered function of every spec in plinio.cost x base points (3 quick / 10 thorough) x one-dimensional sweeps: channels 0..130 + {255..257, 511..513} + quarter-step '
+    ctx.rule = ('every registered function of every spec in plinio.cost x base points (3 quick / 10 thorough) x one-dimensional sweeps: channels 0..130 (quick: through the first base point, multiples of 16 +-1 through the others) + {255..257, 511..513} + quarter-step '
                 'fractions (around tile boundaries quick / all thorough), kernel entries {1,3,5,7} (each and jointly), output sizes 1..33, bits {0,1,2,3,4,6,8,16} for weights and activations, '
                 'bias on/off, theta, groups; one case = one call of a cost function (or STE helper); non-trivial = returns a cost > 0 or rejects; distinct by (function, arguments)')
 
